@@ -28,4 +28,6 @@ def run(tier, seed, replay=None):
 
 
 def extra(ck, tu, X, tier, seed):
-    pass
+    from checks import xext
+    xext.add_ext_obligations(ck, 4 if tier == "thorough" else 3)
+    ck.replayers["x."] = replay_writer.replay
